@@ -29,6 +29,8 @@ CLAIMS = {
          "not decided: the RFC 7233 value of each range form (needs the digit-value function through two nested calls; not yet stated), the file-system side (which file is opened, caching, compression, symlinks), handleRequest's use of the range", "3 C08"),
  "C14": ("fixed-length streamed bodies against an abstract reader (ghost wire position): bodyStream.Read never takes more bytes off the wire than the body still has and returns n <= len(p); bodyStream.skipRest on success leaves the wire exactly at the first byte after the body; chunked bodies: a chunk-size line is parsed only when no chunk data is pending (in Read and in skipRest) and chunkLeft never goes negative; ParseChunkSize returns a non-negative size; ReadHexInt returns the value of 1..15 hex digits with maximal munch",
          "assumed: the network.Reader / io.Reader / bytes.Reader contracts (C13 is not applicable, so the reader is a model), ReadTrailer and SkipTrailer frames (used at call sites, not verified); partial correctness (nosafety: bounds are assumed in these two functions); not decided: that reads do not block beyond the body, ReadBodyWithStreaming's prefetch, netpoll", "3 C14"),
+ "C11": ("slice: the buffered body readers enforce the configured limit — ext.ReadBody, readBodyChunked, readBodyIdentity: on success with a positive limit the returned body is not longer than the limit (loop invariants, unbounded), a fixed-length body is exactly the announced bytes taken from the wire, and round2 is the smallest power of two above its argument",
+         "not decided: equality of what an independent parser would decode, request serialisation (req.write), multipart, 100-continue, streaming mode; the reader is the assumed abstract model. Known finding: without a limit the allocation size is peer-controlled (makeslice panic)", "3 C11"),
 }
 NA = {
  "C06": "recursive pointer trie with back-pointers, goto/closure backtracking and a recursive priority-match specification; no contract within reach of this tool chain states or decides priority dispatch",
